@@ -2,19 +2,23 @@
 import itertools
 
 import common
+import histprop
 import shapes
 from common import from_replay, to_replay  # noqa: F401
 
 COQ_MODULE = "Prop_C13"
-THEOREMS = ["C13_try_exact", "C13_scoped_try_exact"]
-CASE_MODULES = ["Monitors"]
+THEOREMS = ["C13_try_exact", "C13_scoped_try_exact", "C13_every_history"]
+CASE_MODULES = ["Pf_Hist", "Pf_Hist4", "Monitors"]
+SHRINK_GUARD = 0      # which of the booleans evaluated with the verdict certifies the theorem's hypotheses
 CHECK_WITHOUT_PROOF = True
 TRUSTED = common.TRUSTED_COMMON
 ASSUMPTIONS = common.ASSUME_COMMON
 RULE = ("every root template (single lock, poisonable, 4 collection kinds x 4 container kinds, sizes 0..4, random "
         "nestings to depth 2) x {try_lock, try_read, and for a third of the cases scoped_try_lock / scoped_try_read} x every assignment of {free, read-held, write-held by another "
         "thread} to the leaves; plus every template that is or contains a Poisonable, first poisoned by a panicking exclusive scoped call and then tried in every flavour and mode (the poison flag must not change whether the try acquires); non-trivial = at least one leaf held (a refusal or a shared grant next to readers); "
-        "distinct = distinct (shape, mode, assignment)")
+        "distinct = distinct (shape, mode, assignment); plus random API histories (1-3 threads, 4-14 calls: guards, scoped calls, "
+        "forgotten guards, panics, poisoning, Debug formatting, holds of other threads from the start) in which EVERY try / scoped "
+        "try is judged against the hold table the previous call left (mon_C13h)")
 EXHAUSTIVE = {"quick": False, "thorough": False}
 
 
@@ -115,10 +119,19 @@ def gen(tier, rng):
                 scens.append(b.scen(hist=hist, pre=[],
                                     meta={"desc": b.desc[root], "mode": m, "assign": "f" * len(locks),
                                           "flavour": fl + "-poisoned", "poisoned": True}))
+    # whole histories: every non-blocking acquisition of a random history is judged the same way
+    for s in histprop.gen("C13", tier, rng, n=700 if tier == "quick" else 12000):
+        s.meta["family"] = "history"
+        scens.append(s)
     return scens
 
 
 def coq_expr(s, r):
+    if s.meta.get("family") == "history":
+        sc_ = s.coq(*r['adr'])
+        ob_ = common.obs_list(r)
+        return (f"(let v := check_C13h ({sc_}) {ob_} in let x := try_no_bad_release (sc_hist ({sc_})) {ob_} in "
+                f"mkv (v_strict v) (v_proj v) (v_mon v && x) (v_monk v && x), wf_histb ({sc_}) && wf4b ({sc_}))")
     chk = "check_C13p" if s.meta.get("poisoned") else "check_C13"
     ob = common.obs_list(r)
     # a try that "leaves the hold state as it was" issues no release of a lock it does not hold (the auditing lock only
@@ -128,6 +141,8 @@ def coq_expr(s, r):
 
 
 def classify(s, r):
+    if s.meta.get("family") == "history":
+        return ["family=history"] + histprop.classify(s, r)
     d = s.meta
     kind = d["desc"].split(":")[0].split("[")[0]
     ok = any("(ROk)" in o for o in r["obs"][1:2])
@@ -135,8 +150,12 @@ def classify(s, r):
 
 
 def nontrivial(s, r):
+    if s.meta.get("family") == "history":
+        return any(op[0] == "acq" and op[3] in ("try", "scopedtry") for _, op in s.hist)
     return s.meta.get("poisoned", False) or any(c != "f" for c in s.meta["assign"])
 
 
 def signature(s):
+    if s.meta.get("family") == "history":
+        return s.text()
     return (s.meta["desc"], s.meta["mode"], s.meta["assign"], s.meta.get("flavour", "try"))
